@@ -1,6 +1,142 @@
-(* Props/C06.v -- placeholder while the tie is being built *)
-From Pybtex Require Import Base.Prelude Base.PyChar Base.PyStr Model.Bst Model.Engines Proofs.Engines.
+(* Props/C06.v -- "BibTeX-engine output depends only on the cited entries and the style".
+   Statements only; proofs in Proofs/Engines.v and Proofs/EnginesSort.v.  The model is
+   Model/Engines.v (entry points, .aux files, READ) over Model/Bst.v (the interpreter) and
+   Model/Citations.v (citation resolution). *)
+From Pybtex Require Import Base.Prelude Base.PyChar Base.PyStr Model.BibtexStr Model.Wrap Model.Bst Model.Citations Model.Engines
+  Proofs.EnginesSort Proofs.Engines.
+From Coq Require Import Permutation Sorted.
 
-Theorem splitext_nodot : forall p, last_index 46%N p 0 None = None -> splitext_root p = p.
-Proof. exact splitext_root_nodot. Qed.
-Print Assumptions splitext_nodot.
+(* Driving the engine through an .aux file = the equivalent explicit call, byte for byte: whenever the
+   .aux file parses (stating database names `data`, citations, and a style), make_bibliography(aux,
+   style, bib_format) writes into <aux without extension>.bbl exactly the string that
+   format_from_files([d + suffix of the format in force], the style in force, the .aux citations,
+   bib_format) returns, and fails exactly as that call fails.  The style in force is the requested one
+   if there is one, else the .aux file's; the format in force is the requested one, else BibTeX. *)
+Theorem aux_equals_explicit : forall fmt_name cw fuel fs aux style bf m ad sty data,
+  aux_parse_file aux_depth fs aux = Ok ad -> ax_data ad = Some data ->
+  (match style with Some s => Some s | None => ax_style ad end) = Some sty ->
+  let fmt := match bf with Some f => f | None => 0 end in
+  match format_from_files fmt_name cw fuel fs (map (fun n => BName (n ++ suffix_of fmt)) data) sty
+                          (Some (ax_cites ad)) bf m None false with
+  | Ok o => exists bbl, o = mkOut fs (Some bbl) (o_reports o) /\
+            make_bibliography fmt_name cw fuel fs aux style bf m =
+            Ok (mkOut (fs_write fs (splitext_root aux ++ s_bbl) bbl) None (ax_reports ad + o_reports o))
+  | PyErr c l => make_bibliography fmt_name cw fuel fs aux style bf m = PyErr c l
+  | Crash => make_bibliography fmt_name cw fuel fs aux style bf m = Crash
+  | OutOfFuel => make_bibliography fmt_name cw fuel fs aux style bf m = OutOfFuel
+  end.
+Proof. exact make_bibliography_explicit. Qed.
+Print Assumptions aux_equals_explicit.
+
+(* An explicitly requested style overrides what the .aux file says: two .aux files that agree on
+   everything but the style they name give the same result under an explicit style. *)
+Theorem override_wins : forall fmt_name cw fuel fs aux1 aux2 s bf m ad1 ad2,
+  aux_parse_file aux_depth fs aux1 = Ok ad1 -> aux_parse_file aux_depth fs aux2 = Ok ad2 ->
+  ax_data ad1 = ax_data ad2 -> ax_cites ad1 = ax_cites ad2 -> ax_reports ad1 = ax_reports ad2 ->
+  splitext_root aux1 = splitext_root aux2 ->
+  make_bibliography fmt_name cw fuel fs aux1 (Some s) bf m = make_bibliography fmt_name cw fuel fs aux2 (Some s) bf m.
+Proof. exact make_bibliography_override. Qed.
+Print Assumptions override_wins.
+
+(* The interpreter receives the database only through what READ finds: two sets of bibliography files
+   that look the same to READ (same citations afterwards, same entries with the same visible fields,
+   same number of reports) give the same run, whatever the style program. *)
+Theorem run_frame : forall fmt_name cw fuel fs1 fs2 srcs1 srcs2 prog cites fmt m,
+  same_view m (parse_files fs1 fmt srcs1) (parse_files fs2 fmt srcs2) ->
+  engine_run fmt_name cw fuel fs1 prog cites srcs1 fmt m = engine_run fmt_name cw fuel fs2 prog cites srcs2 fmt m.
+Proof. exact engine_run_same_view. Qed.
+Print Assumptions run_frame.
+
+(* Adding or removing an uncited entry changes nothing READ finds: an entry whose key is (up to case)
+   neither cited nor the cross-reference of any entry of the file, in a reading without '*', can be
+   inserted at / deleted from any position of the database.  (The side condition is about keys, so
+   it also covers collisions of the added key with entries already there.) *)
+Theorem uncited_irrelevant : forall db1 e db2 cites m,
+  never_wanted (db1 ++ db2) cites (b_key e) ->
+  engine_read (db1 ++ e :: db2) cites m = engine_read (db1 ++ db2) cites m.
+Proof. exact engine_read_uncited. Qed.
+Print Assumptions uncited_irrelevant.
+
+(* sharper: an entry that is not wanted at the moment the one-pass reader reaches it leaves no trace *)
+Theorem unwanted_irrelevant : forall db1 e db2 cites m,
+  want_entry (read_db (Some cites) (map proj db1)) (b_key e) = false ->
+  engine_read (db1 ++ e :: db2) cites m = engine_read (db1 ++ db2) cites m.
+Proof. exact engine_read_skip. Qed.
+Print Assumptions unwanted_irrelevant.
+
+(* ITERATE {f} executes f exactly once per citation the engine holds, in order, each time with the
+   current entry set to that citation's entry; REVERSE {f} does the same over the reversed list. *)
+Theorem iterate_visits_each_once : forall fmt_name cw fuel st f o st',
+  vlookup f (st_vars st) = Some o ->
+  run_command fmt_name cw fuel st (Cmd nm_iterate [[IId f]]) = Ok st' ->
+  exists sts, length sts = length (st_cites st) /\
+    (forall i k, nth_error (st_cites st) i = Some k ->
+       exists s1 s2, nth_error (st :: sts) i = Some s1 /\ nth_error sts i = Some s2 /\
+                     visit fmt_name cw fuel f s1 k = Ok s2) /\
+    last sts st = st'.
+Proof. exact iterate_command_chain. Qed.
+Print Assumptions iterate_visits_each_once.
+
+Theorem reverse_visits_each_once : forall fmt_name cw fuel st f o st',
+  vlookup f (st_vars st) = Some o ->
+  run_command fmt_name cw fuel st (Cmd nm_reverse [[IId f]]) = Ok st' ->
+  exists sts, length sts = length (st_cites st) /\
+    (forall i k, nth_error (rev (st_cites st)) i = Some k ->
+       exists s1 s2, nth_error (st :: sts) i = Some s1 /\ nth_error sts i = Some s2 /\
+                     visit fmt_name cw fuel f s1 k = Ok s2) /\
+    last sts st = st'.
+Proof. exact reverse_command_chain. Qed.
+Print Assumptions reverse_visits_each_once.
+
+(* SORT: the citation list becomes a permutation of itself, in sort.key$ order (Python's string
+   order = lexicographic on code points), citations with equal keys keeping their relative order. *)
+Theorem sort_stable_permutation : forall fmt_name cw fuel st st',
+  run_command fmt_name cw fuel st (Cmd nm_sort []) = Ok st' ->
+  exists ks, sort_keys st (st_cites st) = Ok ks /\ map snd ks = st_cites st /\
+    st' = set_cites st (map snd (stable_sort ks)) /\
+    Permutation (stable_sort ks) ks /\ StronglySorted key_le (stable_sort ks) /\
+    (forall k, filter (has_key k) (stable_sort ks) = filter (has_key k) ks).
+Proof. exact command_sort_spec. Qed.
+Print Assumptions sort_stable_permutation.
+
+(* ---- non-vacuity *)
+Definition S_ (s : string) : str := s2l s.
+Definition ex_style : list command :=
+  [Cmd (S_ "ENTRY") [[IId (S_ "title")]; []; []];
+   Cmd (S_ "FUNCTION") [[IId (S_ "f")]; [IId (S_ "cite$"); IId (S_ "write$"); IId (S_ "newline$")]];
+   Cmd (S_ "READ") []; Cmd (S_ "ITERATE") [[IId (S_ "f")]]].
+Definition ex_style2 : list command :=
+  [Cmd (S_ "ENTRY") [[IId (S_ "title")]; []; []];
+   Cmd (S_ "FUNCTION") [[IId (S_ "f")]; [IId (S_ "title"); IId (S_ "write$"); IId (S_ "newline$")]];
+   Cmd (S_ "READ") []; Cmd (S_ "REVERSE") [[IId (S_ "f")]]].
+Definition ex_db : list bentry :=
+  [mkB (S_ "a") (S_ "book") [(S_ "title", S_ "Ta")]; mkB (S_ "u") (S_ "misc") [(S_ "title", S_ "Tu")];
+   mkB (S_ "b") (S_ "book") [(S_ "title", S_ "Tb")]].
+Definition ex_fs : fsys :=
+  [(S_ "doc.aux", FAux [S_ "\relax"; S_ "\citation{b,a}"; S_ "\bibstyle{s}"; S_ "\bibdata{db}"]);
+   (S_ "s.bst", FBst ex_style); (S_ "t.bst", FBst ex_style2); (S_ "db.bib", FBib 0 ex_db);
+   (S_ "db.yaml", FBib 1 [mkB (S_ "b") (S_ "misc") [(S_ "title", S_ "Yb")]])].
+Definition nofmt (_ _ : str) : res str := OutOfFuel.
+Definition nocw (_ : char) : Z := 0%Z.
+
+Example aux_example :
+  (exists ad, aux_parse_file aux_depth ex_fs (S_ "doc.aux") = Ok ad /\ ax_data ad = Some [S_ "db"] /\
+              ax_style ad = Some (S_ "s") /\ ax_cites ad = [S_ "b"; S_ "a"]) /\
+  option_map (fun o => written_text o) (match make_bibliography nofmt nocw 100 ex_fs (S_ "doc.aux") None None 2 with Ok o => Some o | _ => None end)
+    = Some [(S_ "doc.bbl", S_ "b
+a
+")] /\
+  option_map (fun o => written_text o) (match make_bibliography nofmt nocw 100 ex_fs (S_ "doc.aux") (Some (S_ "t")) (Some 1) 2 with Ok o => Some o | _ => None end)
+    = Some [(S_ "doc.bbl", S_ "Yb
+")].
+Proof. vm_compute. split; [eexists; repeat split|split; reflexivity]. Qed.
+
+Example uncited_example :
+  never_wanted [nth 0 ex_db (mkB [] [] []); nth 2 ex_db (mkB [] [] [])] [S_ "b"; S_ "a"] (S_ "u") /\
+  r_cites (engine_read ex_db [S_ "b"; S_ "a"] 2) = [S_ "b"; S_ "a"].
+Proof. vm_compute. auto. Qed.
+
+Example sort_example :
+  stable_sort [(S_ "b", S_ "x"); (S_ "a", S_ "y"); (S_ "b", S_ "z"); (S_ "", S_ "w")]
+  = [(S_ "", S_ "w"); (S_ "a", S_ "y"); (S_ "b", S_ "x"); (S_ "b", S_ "z")].
+Proof. vm_compute. reflexivity. Qed.
